@@ -42,6 +42,10 @@ def install(spec, events):
 
     def tick(ev):
         if counter['n'] == crash_at:
+            if spec.get('kill') == 'sigterm':
+                import signal, time
+                os.kill(os.getpid(), signal.SIGTERM)      # default disposition: the process dies here
+                time.sleep(30)
             os._exit(99)
         counter['n'] += 1
         events.append(ev)
@@ -105,6 +109,8 @@ def install(spec, events):
 def main():
     spec = json.loads(sys.argv[1])
     events = []
+    if spec.get('mode') == 'cli':
+        return main_cli(spec, events)
     sigs = payload(spec)
     if spec.get('preexisting'):
         # the destination already holds a complete, different signature file (regenerating a file in place)
@@ -116,6 +122,34 @@ def main():
     if spec.get('compression'):
         kw['compression'] = spec['compression']
     dump_signatures(spec['out'], sigs, **kw)
+    if spec.get('trace'):
+        with open(spec['trace'], 'w') as f:
+            json.dump(events, f)
+    return 0
+
+
+def main_cli(spec, events):
+    """the write is performed by the real `gambit signatures create` (in this process, so that the h5py wrappers see it):
+    signatures are first computed with the default process pool, then written - as the command always does"""
+    import random
+    rng = random.Random(spec.get('seed', 1))
+    import tempfile
+    d = tempfile.mkdtemp(prefix='cli_in_', dir=os.path.dirname(spec['out']))
+    os.chdir(d)                       # relative names: the ids written to the file do not depend on the directory
+    files = []
+    for i in range(spec['n']):
+        p = f'in_{i}.fa'
+        with open(p, 'w') as f:
+            f.write('>c\n' + ''.join('ATGAC' + ''.join(rng.choice('ACGT') for _ in range(13)) for _ in range(spec['size'])) + '\n')
+        files.append(p)
+    install(spec, events)
+    from gambit.cli import cli
+    try:
+        cli.main(['signatures', 'create', '--no-progress', '-c', '2', '-o', spec['out']] + files, standalone_mode=False)
+    finally:
+        import shutil
+        os.chdir('/')
+        shutil.rmtree(d, ignore_errors=True)
     if spec.get('trace'):
         with open(spec['trace'], 'w') as f:
             json.dump(events, f)
